@@ -185,7 +185,8 @@ class Enum(BaseType, IntEnum, metaclass=EnumMetaType):
             return f"{base}{value}"
 
     def __eq__(self, other: int | Enum) -> bool:
-        if isinstance(other, Enum) and other.__class__ is not self.__class__:
+        if isinstance(other.__class__, EnumMetaType) and other.__class__ is not self.__class__:
+            # A member of another enum, or of a flag
             return False
 
         # Python <= 3.10 compatibility
